@@ -15,6 +15,7 @@ namespace Modbus.C08Crc
 open Modbus.Crc
 
 def goodFrame : Bytes := [0x11, 0x01, 0x00, 0x01, 0x00, 0x02, 0xEE, 0x9B]
+def goodParsed : Rtu.Frame := { slave := 0x11, pdu := [0x01, 0x00, 0x01, 0x00, 0x02] }
 
 /-- (a) the extractor's comparison succeeds iff the register run over the whole frame, CRC bytes
     included, ends at zero -/
@@ -143,6 +144,10 @@ theorem crc_detects_double_flip (F : Bytes) (hF : CrcOk F) (h256 : F.length ≤ 
   obtain ⟨p', q', hpq', hq', hE⟩ := doubleBit_bitError F.length p q hpq hq
   exact crc_detects_double F _ hF (by simp) h256 p' q' hpq' hq' hE
 
+example : ¬ CrcOk (xorBytes goodFrame (bitError goodFrame.length 22)) :=
+  crc_detects_single_flip goodFrame (by decide +kernel) 22 (by decide)
+example : ¬ CrcOk (xorBytes goodFrame (xorBytes (bitError goodFrame.length 0) (bitError goodFrame.length 63))) :=
+  crc_detects_double_flip goodFrame (by decide +kernel) (by decide) 0 63 (by decide) (by decide)
 example : xorBytes goodFrame (bitError 8 22) = [0x11, 0x01, 0x40, 0x01, 0x00, 0x02, 0xEE, 0x9B] := by
   decide +kernel
 example : xorBytes goodFrame (xorBytes (bitError 8 0) (bitError 8 63))
@@ -181,6 +186,13 @@ theorem crc_detects (F E : Bytes) (fr : Rtu.Frame)
   rw [hl] at this
   exact this
 
+example : ∃ e a, Rtu.extractFrame (xorBytes goodFrame (bitError 8 22)) (goodFrame.length - 3) = .err (.crc e a) :=
+  crc_detects goodFrame (bitError 8 22) goodParsed (by decide +kernel) (by decide)
+    (Or.inl (singleBit_bitError 8 22 (by decide)))
+example : ∃ e a, Rtu.extractFrame (xorBytes goodFrame (xorBytes (bitError 8 0) (bitError 8 63)))
+    (goodFrame.length - 3) = .err (.crc e a) :=
+  crc_detects goodFrame _ goodParsed (by decide +kernel) (by decide)
+    (Or.inr (Or.inr ⟨doubleBit_bitError 8 0 63 (by decide) (by decide), by decide⟩))
 example : Rtu.extractFrame goodFrame (goodFrame.length - 3)
     = .ok (some { slave := 0x11, pdu := [0x01, 0x00, 0x01, 0x00, 0x02] }) := by decide +kernel
 example : Rtu.extractFrame (xorBytes goodFrame (bitError 8 22)) (goodFrame.length - 3)
